@@ -116,6 +116,11 @@ static void run_join(Src &s) {
     if (!defs.count(id)) order.push_back(id);
     defs[id].push_back(d);
   }
+  // the last line of a file need not end with a newline
+  if (!text.empty() && text.back() == '\n' && s.chance(20)) {
+    text.pop_back();
+    g_case.tag("no_final_newline");
+  }
   write_file(g_scr.dir + "/vfj.conf", text);
   bool join_on = !s.chance(25);
   size_t offspelling = s.below(3);  // how "off" is spelled: no option / =0 / other options only
@@ -244,6 +249,11 @@ static void run_python(Src &s) {
   if (!python_on) {
     // without the option indented lines with a delimiter are entries of their own and comment characters end
     // a value: only files without such lines have a known meaning here -> skip the comparison of values
+  }
+  // the last line of a file need not end with a newline
+  if (!text.empty() && text.back() == '\n' && s.chance(20)) {
+    text.pop_back();
+    g_case.tag("no_final_newline");
   }
   write_file(g_scr.dir + "/vfp.conf", text);
   std::string opts = "PARSING_DIRS=" + g_scr.dir;
